@@ -53,7 +53,9 @@ Table(b, p, lim) ==
            endd == p + 12 + n * w IN
        IF endd > lim THEN [ok |-> FALSE]
        ELSE [ok |-> TRUE, id |-> id, flags |-> fl, hi |-> hi, lo |-> lo,
-             data |-> [k \in 1..n |-> Elem(b, p + 12 + (k - 1) * w, w)], next |-> Pad8(endd)]
+             data |-> [k \in 1..n |-> Elem(b, p + 12 + (k - 1) * w, w)], next |-> Pad8(endd),
+             \* td_pad64: the bytes up to the next 8-byte boundary are NUL bytes (the loader skips them unread)
+             padok |-> \A x \in endd..(Pad8(endd) - 1) : x < lim => b[x + 1] = 0]
 
 RECURSIVE Tables(_, _, _, _)
 Tables(b, p, lim, acc) ==
@@ -72,7 +74,9 @@ SetAt(b, p, n) ==
             IF ne < 0 \/ ne >= n \/ p + ss > n \/ hs % 8 # 0 \/ ss % 8 # 0 \/ hs # Pad8(ne + 1 - p) THEN [ok |-> FALSE]
             ELSE LET ts == Tables(b, p + hs, p + ss, <<>>) IN
                  [ok |-> ts.ok, name |-> Str(b, ve + 1, ne), hsize |-> hs, ssize |-> ss, flags |-> fl,
-                  endp |-> p + ss, tables |-> ts.tables]
+                  endp |-> p + ss, tables |-> ts.tables,
+                  \* th_pad64 after the name, td_pad64 after every table
+                  padok |-> (\A x \in (ne + 1)..(p + hs - 1) : b[x + 1] = 0) /\ (\A k \in 1..Len(ts.tables) : ts.tables[k].padok)]
 
 RECURSIVE Sets(_, _, _, _)
 Sets(b, p, n, acc) ==
@@ -103,7 +107,7 @@ FlatPairs(ps) == [k \in 1..(2 * Len(ps)) |-> ps[((k - 1) \div 2) + 1][((k - 1) %
 LayoutOK ==
   (j = 0 /\ Cases[c].layout) =>
     /\ TheSets # <<>> /\ TheSets[Len(TheSets)].endp = Len(B)
-    /\ \A k \in 1..Len(TheSets) : TheSets[k].flags = 0
+    /\ \A k \in 1..Len(TheSets) : TheSets[k].flags = 0 /\ TheSets[k].padok
     /\ \E k \in 1..Len(TheSets) : TheSets[k].name = Cases[c].name
 ContentOK ==
   (j = 0 /\ Cases[c].compare) =>
